@@ -877,6 +877,27 @@ def program_case(ctx, case):
             ctx.label('program_field_enum')
     if case.get('consts'):
         body_.update({'ALL_MODES': [0, 1], 'TABLE': {'a': 1}})
+    # 'declare': where the layout (and id) are declared - on the class
+    # (default), on each instance ('definition' and 'id' are documented as
+    # overridable by instance attributes), or a class-level prefix that the
+    # instance extends
+    declare = case.get('declare') or 'class'
+    if declare != 'class':
+        ctx.label('program_declared_on_' + declare)
+        full, pid_ = definition, case['id']
+        half = len(full) // 2
+        body_.pop('id')
+        if declare == 'instance':
+            body_.pop('definition')
+        else:
+            body_['definition'] = full[:half]
+
+        def __init__(self, *a, **k):
+            Packet.__init__(self, *a, **k)
+            self.id = pid_
+            self.definition = full if declare == 'instance' else \
+                type(self).definition + full[half:]
+        body_['__init__'] = __init__
     cls = type('GeneratedPacket', (Packet,) + (
         (_Enum,) if case.get('consts') else ()), body_)
     p = cls()
@@ -1195,6 +1216,8 @@ def t_programs(ctx, n):
             case['enums'] = en
         if co:
             case['consts'] = True
+        if len(en) == 1 or (co and not en):
+            case['declare'] = ['instance', 'instance_extends'][pid % 2]
         if grp:
             case['groups'] = grp
             c.label('program_multi_key_entries')
@@ -1206,6 +1229,15 @@ def t_programs(ctx, n):
     strat = st.tuples(strat, st.one_of(
         st.just([]), st.lists(st.integers(0, 7), max_size=3)),
         st.sampled_from([False, False, True]))
+    for ver in (757, 340, 47):
+        for declare in ('class', 'instance', 'instance_extends'):
+            program_case(ctx, {
+                'version': ver, 'id': 0x7A, 'declare': declare,
+                'fields': [['a', 'VarInt'], ['note', 'String'],
+                           ['refs', ['PrefixedArray', 'VarInt', 'Short']],
+                           ['where', 'Position']],
+                'values': [300, 'caf\u00e9', [1, -2, 3], [1, 2, -3]],
+                'enums': [2], 'consts': declare != 'class'})
     hyp(ctx, 'programs', strat, body, n)
 
 
